@@ -4,7 +4,7 @@ from vverif.core import Result, HarnessError
 
 LEVEL = 'model_checking'
 RULE = ('one real ClpMap<std::string, value-with-declared-size> (initial capacity: room for 2 small entries, default TTL 5) vs a '
-        'reference list model; every sequence of <= D operations (D = 5 quick, 6 thorough) from: add(k, small|big, ttl) for k in '
+        'reference list model; every sequence of <= D operations (D = 6 quick, 8 thorough) from: add(k, small|big, ttl) for k in '
         '{a,b,c} x ttl in {-1,0,1,10} (big = costs 2 units), add with the default TTL, get(k), del(k), setMemLimit in '
         '{0, 1, 1 unit, 2 units, 2 units+1, 3 units}, clock advance by {1,2,11}; after every step get/add results, '
         'memoryUsed() <= memLimit(), memoryUsed() and entries() are compared with the reference; on every distinct state also '
